@@ -673,3 +673,42 @@ func isLoopControlFact(fc Fact) bool {
 	}
 	return false
 }
+
+// NoEarlyExit: every `for … range <x matching over>` loop in fn (map ranges
+// and slice ranges) is left only through its header, i.e. the body contains no
+// `break` (returns are fine): every element is visited.
+func (c *Ctx) NoEarlyExit(fn *ssa.Function, over VM, label string) int {
+	n := 0
+	for _, b := range fn.Blocks {
+		var header *ssa.BasicBlock
+		for _, in := range b.Instrs {
+			switch x := in.(type) {
+			case *ssa.Next:
+				if rg, ok := x.Iter.(*ssa.Range); ok && over(rg.X) {
+					header = b
+				}
+			case *ssa.BinOp:
+				// slice range: rangeindex+1 < len(x)
+				if x.Op == token.LSS && isRangeIndex(x.X) {
+					if l := builtinCall(x.Y, "len"); l != nil && over(l.Call.Args[0]) {
+						header = b
+					}
+				}
+			}
+		}
+		if header == nil || len(header.Succs) != 2 {
+			continue
+		}
+		n++
+		done := header.Succs[1]
+		c.inst(label + ": loop at " + c.siteStr(header.Instrs[0]))
+		c.nontrivial(label + c.siteStr(header.Instrs[0]))
+		body := header.Succs[0]
+		for _, p := range done.Preds {
+			if p != header && (p == body || body.Dominates(p)) {
+				c.violate(p.Instrs[len(p.Instrs)-1], fn, label, label+": the loop is left early (break) before every element was visited", nil)
+			}
+		}
+	}
+	return n
+}
